@@ -396,7 +396,7 @@ pub fn c05(tier: &str) -> ! {
         run_sched(&mut rep, "outcomes-under-fault/p2d4", &c08_concurrent_programs(), (2, 4), 16, false, 2, Duration::from_secs(900), own_f);
     } else {
         // (without the half-written-record variants: they are C08's, which runs the whole list)
-        let progs: Vec<Arc<Prog>> = c08_concurrent_programs().into_iter().filter(|p| !p.name.contains("half-written")).collect();
+        let progs: Vec<Arc<Prog>> = c08_concurrent_programs().into_iter().filter(|p| !p.name.contains("half-written") && !p.name.contains("rotating-T2")).collect();
         run_sched(&mut rep, "outcomes-under-fault/p1d3", &progs, (1, 3), 4, false, 1, Duration::from_secs(10), own_f);
     }
     for a in SCHED_ASSUMPTIONS {
